@@ -21,7 +21,11 @@ fn in_range(v: i128) -> bool {
 }
 
 pub fn check_add(rep: &mut Rep, e_c: i128, s: TimeScale, d_c: i128) {
-    if !in_range(e_c + d_c) || !in_range(e_c - d_c) || !in_range(e_c) || !in_range(d_c) {
+    // "such that the result stays representable": each direction is judged when its own exact result is (an epoch on a bound
+    // can still move away from it)
+    let representable = |v: i128| (MIN_NS..=MAX_NS).contains(&v);
+    let (ok_add, ok_sub) = (representable(e_c + d_c), representable(e_c - d_c));
+    if !(ok_add || ok_sub) || !representable(e_c) || !representable(d_c) {
         return;
     }
     if !rep.tick() {
@@ -58,7 +62,10 @@ pub fn check_add(rep: &mut Rep, e_c: i128, s: TimeScale, d_c: i128) {
     }) {
         Err(p) => rep.fail(&format!("add/panic/{}", p.class()), None, || format!("{} panicked: {} at {}", det(), p.msg, p.loc)),
         Ok((a, b, c, f, i1, i2, i3, i4)) => {
-            for (name, g, w) in [("add", a, e_c + d_c), ("sub", b, e_c - d_c), ("add_assign", c, e_c + d_c), ("sub_assign", f, e_c - d_c), ("(e+d)-d", i2, e_c), ("e+(f-e)", i3, e_c + d_c)] {
+            for (name, g, w, ok) in [("add", a, e_c + d_c, ok_add), ("sub", b, e_c - d_c, ok_sub), ("add_assign", c, e_c + d_c, ok_add), ("sub_assign", f, e_c - d_c, ok_sub), ("(e+d)-d", i2, e_c, ok_add), ("e+(f-e)", i3, e_c + d_c, ok_add)] {
+                if !ok {
+                    continue;
+                }
                 if g.time_scale != s {
                     rep.fail(&format!("{name}/scale-changed"), None, || format!("{}: {name} tagged {:?}", det(), g.time_scale));
                 }
@@ -67,10 +74,10 @@ pub fn check_add(rep: &mut Rep, e_c: i128, s: TimeScale, d_c: i128) {
                     rep.fail(&format!("{name}/value"), None, || format!("{}: {name} = {} (count {}), want {}", det(), fmt_parts(gp), count(gp), w));
                 }
             }
-            if count_d(i1) != d_c {
+            if ok_add && count_d(i1) != d_c {
                 rep.fail("(e+d)-e/value", None, || format!("{}: (e+d)-e = {} want {}", det(), count_d(i1), d_c));
             }
-            if count_d(i4) != -d_c {
+            if ok_sub && count_d(i4) != -d_c {
                 rep.fail("(e-d)-e/value", None, || format!("{}: (e-d)-e = {} want {}", det(), count_d(i4), -d_c));
             }
         }
@@ -234,6 +241,46 @@ pub fn run(cfg: &Cfg, rep: &mut Rep) {
             check_unit(rep, e_c, *s);
             for &d in dl.iter().step_by(1 + j % 3) {
                 check_add(rep, e_c, *s, d);
+            }
+        }
+    }
+    // the bounds themselves and their neighbours as readings: whatever leads away from the bound is exact
+    if !cfg.fuzz {
+        for (si, s) in SCALES.iter().enumerate() {
+            for (j, e_c) in [MAX_NS, MAX_NS - 1, MIN_NS, MIN_NS + 1, MAX_NS - NPC, MIN_NS + NPC, MAX_NS - NPC + 1, MIN_NS + NPC - 1, MAX_NS - NPC / 2, MIN_NS + NPC / 2].into_iter().enumerate() {
+                if (si * 10 + j) % n != sh {
+                    continue;
+                }
+                rep.class("add/reading-on-a-bound");
+                check_unit(rep, e_c, *s);
+                for &d in dl.iter() {
+                    check_add(rep, e_c, *s, d);
+                }
+                for k in 1..=40i128 {
+                    check_add(rep, e_c, *s, k * NPC);
+                    check_add(rep, e_c, *s, -k * NPC);
+                    check_add(rep, e_c, *s, k * NPC + 1);
+                    check_add(rep, e_c, *s, -k * NPC - 1);
+                }
+            }
+        }
+        // differences whose right operand sits in the first / last centuries of the range, for every ordered pair of scales:
+        // judged whenever the reading, its TAI pivot and its re-expression are all representable (no bound is hit on the way)
+        let mut r2 = Rng::new(7, 0x04b0 + sh as u64);
+        for _ in 0..4000 {
+            let (s, s2) = (SCALES[r2.below(9) as usize], SCALES[r2.below(9) as usize]);
+            let off = r2.range_i128(0, 3 * NPC);
+            let e_c = if r2.chance(1, 2) { MIN_NS + off } else { MAX_NS - off };
+            let t_e = w.to_tai(e_c, s);
+            if !in_range(t_e) {
+                continue;
+            }
+            if let Some(near) = w.from_tai(t_e, s2) {
+                let f_c = near + if r2.chance(1, 2) { 2 * NPC } else { -2 * NPC } * if e_c < 0 { 1 } else { -1 } + r2.range_i64(-1000, 1000) as i128;
+                if in_range(near) && in_range(f_c) {
+                    rep.class("diff/right-operand-next-to-a-bound");
+                    check_diff(rep, &w, f_c, s2, e_c, s);
+                }
             }
         }
     }
